@@ -36,6 +36,16 @@ CHECKS = {
     text="Source dialect and IC10 machine are Coq definitions (trusted specs). Kernel-checked for all programs/oracles/operands: effects are never retracted and fuel-cut traces are prefixes of longer runs, verdict 0 of the comparison implies event-wise agreement, the negated-comparison table (regenerated) pairs every operator with the negated relation and the negated branch is taken exactly when the comparison is false for all ordered operands (refuted for NaN). The compiler is not modelled as a function: every generated program (grammar-directed, all listed constructs) is compiled under rotating option sets and its emitted text executed against the source under 3 device oracles by vm_compute of those same definitions; disagreements are shrunk and replayed. T1 (a verified simulation checker) is not built yet: the per-compile verdict is a bounded test, stated as such.",
     note="Trusted: Coq kernel; Src/Sem.v, IC10/Machine.v, FloatAlg.v (specifications); ic10.py reader; generator's two printers. Bounded by fuel and by the sample of programs/oracles; timing not modelled; NaN excluded. One open known finding (fall-through after a terminating main, pinned by .ref files).",
     design="4 C01"),
+ "C02": dict(
+    category="translation_validation", technique="pairwise execution of real compiler outputs on the Coq IC10 machine (vm_compute) with kernel-checked comparison/monotonicity lemmas; option vectors enumerated (pairwise-covering / all 256)",
+    text="Every program (generated + the repository's 69 programs) is compiled under a baseline and under option vectors (quick: 4 per program from a pairwise-covering set plus the 32 behaviour vectors; thorough: all 256 on 20 programs) and each variant is executed against the baseline on the machine model under 2 oracles; one vector per program is also delivered through '# pytrapic:' lines and must give the same code. Kernel-checked: verdict 0 implies event-wise agreement, traces are monotone in fuel, the C07 guard is conservative, the option record has exactly the 8 regenerated fields. Bounded, sampled validation - not a proof of the compiler.",
+    note="Trusted: Coq kernel; IC10/Machine.v; ic10.py reader. Known finding C07 is factored out by the guarded run; programs addressing the chip's own stack are not compared under the push/pop convention (same memory); one open known finding (tail call after an inner call).",
+    design="4 C02"),
+ "C07": dict(
+    category="proof", technique="Coq proof about the machine (sequential flow = next line; j/jr/hcf never fall through; end of program halts silently) + closure check of every emitted layout evaluated in Coq + execution past the end of main",
+    text="Kernel-checked for every program, oracle and state: a non-control instruction moves to the next line or fails in place; a line that is j/jr/hcf never continues sequentially; in a closed layout every function region is preceded by such a line, hence is entered only by explicit transfer; running past the last line halts with no effect. For each compile the region entries come from the hook and `closed` is evaluated in Coq on the emitted program; programs are also executed past the end of main. The layout is NOT closed today whenever main can terminate (refuted by witness in C07.v): open known finding pinned by the stored .ref files.",
+    note="Trusted: Coq kernel; IC10/Machine.v; hook's owner export; ic10.py reader. Dynamic part bounded/sampled.",
+    design="4 C07"),
 }
 
 NOT_YET = {}
